@@ -410,3 +410,7 @@ fn default_local_stratum() -> u8 {
 fn default_warn_on_jump() -> bool {
     true
 }
+
+#[cfg(all(test, pendulum_project_ntpd_rs_verif))]
+#[path = "/verif/harness/ntp-proto/hook_config.rs"]
+mod verif_hook;
